@@ -352,7 +352,7 @@ Lemma add_vote_J peer v s : Inv6 s -> Inv6 (add_vote valid vals proposer mkblock
 Proof.
   intros J. unfold add_vote.
   destruct (_ && vtype_eqb _ _).
-  { destruct (negb _); [exact J|]. destruct (last_commit s) as [[lr vs]|]; [|now apply Inv6_panic].
+  { destruct (negb _); [exact J|]. destruct (last_commit s) as [[lr vs]|]; [|exact J].
     destruct (_ || _); [exact J|]. destruct (vs_add _ _ _ _) as [vs' added].
     destruct (negb added); [exact J|].
     assert (J1 : Inv6 (set_last_commit (Some (lr, vs')) s)) by (eapply Inv6_eq; [|exact J]; repeat split).
